@@ -23,7 +23,7 @@ D1 = {"n": 6, "tag": 141}
 D2 = {"n": 21, "tag": 142}
 K, K2, K3 = "k-main", "k-oneshot", "k-linked"
 
-ACTIONS = ["W1", "W2", "W3", "WH", "WBAD", "WBADI", "WMULTI", "R", "RH", "ST", "M", "L", "E", "CP", "CPU", "HL", "RM", "RMH", "RF", "CL", "LK", "DFLIP", "DTRUNC", "DUTF8", "DTORN", "DSHORT", "DDIR"]
+ACTIONS = ["W1", "W2", "W3", "WH", "WBAD", "WBADI", "WMULTI", "WOTHER", "WHDEC", "R", "RH", "ST", "M", "L", "E", "CP", "CPU", "HL", "RM", "RMH", "RF", "CL", "LK", "DFLIP", "DTRUNC", "DUTF8", "DTORN", "DSHORT", "DDIR"]
 MIXED = ["W1", "W2", "WH", "R", "M", "L", "RM", "RF", "DUTF8", "ST", "W3"]
 
 
@@ -90,6 +90,14 @@ def do_action(srv, side, cache, aux, act):
         d = ref.gen(D1["n"], D1["tag"])
         multi = ref.sri("sha1", d) + " " + ref.sri("sha256", d)
         rep, _ = wr.do_write(srv, cache, side=side, entry="open", key=K, algo="sha256", n=D1["n"], tag=D1["tag"], opts={"time": "8", "integrity": multi})
+        return [rep]
+    if act == "WHDEC":
+        # by-address writer, declared size (memory-mapped path), decreasing chunk lengths
+        rep, _ = wr.do_write(srv, cache, side=side, entry="open_hash", algo="sha1", n=10, tag=143, chunks=[4, 3, 3], opts={"size": 10})
+        return [rep, srv.call({"op": "read_hash" + suf, "cache": cache, "sri": ref.sri("sha1", ref.gen(10, 143))})]
+    if act == "WOTHER":
+        # a declared integrity under another algorithm than the writer's (correct digest of the data)
+        rep, _ = wr.do_write(srv, cache, side=side, entry="open", key=K, algo="sha256", n=D1["n"], tag=D1["tag"], opts={"time": "9", "integrity": ref.sri("sha512", ref.gen(D1["n"], D1["tag"]))})
         return [rep]
     if act == "R":
         return [srv.call({"op": "read" + suf, "cache": cache, "key": K})]
